@@ -118,6 +118,10 @@ cfg_digit!(
 
             #[inline]
             fn last(self) -> Option<u32> {
+                if self.len() == 0 {
+                    // the only remaining native digit may already be consumed from the front
+                    return None;
+                }
                 self.data.last().map(|&last| {
                     if self.last_hi_is_zero {
                         last as u32
